@@ -46,7 +46,7 @@ WHOLE = {
             "crypto_pwhash/scryptsalsa208sha256/nosse/pwhash_scryptsalsa208sha256_nosse.c", "crypto_pwhash/scryptsalsa208sha256/pbkdf2-sha256.c"],
     "C01": ["crypto_aead/aegis128l/aegis128l_common.h", "crypto_aead/aegis128l/aegis128l_soft.c", "crypto_aead/aegis256/aegis256_common.h", "crypto_aead/aegis256/aegis256_soft.c",
             "crypto_aead/aegis128l/aead_aegis128l.c", "crypto_aead/aegis256/aead_aegis256.c", "crypto_core/softaes/softaes.c", "include/sodium/private/softaes.h",
-            "crypto_aead/aegis128l/aegis128l_aesni.c", "crypto_aead/aegis256/aegis256_aesni.c"],
+            "crypto_aead/aegis128l/aegis128l_aesni.c", "crypto_aead/aegis256/aegis256_aesni.c", "crypto_aead/aes256gcm/aesni/aead_aes256gcm_aesni.c"],
     "C03": ["crypto_stream/chacha20/dolbeau/u0.h", "crypto_stream/chacha20/dolbeau/u1.h", "crypto_stream/chacha20/dolbeau/u4.h", "crypto_stream/chacha20/dolbeau/u8.h",
             "crypto_stream/chacha20/dolbeau/chacha20_dolbeau-avx2.c", "crypto_stream/chacha20/dolbeau/chacha20_dolbeau-ssse3.c"],
 }
